@@ -8,8 +8,8 @@ def run(ctx):
     vlib.stage_specs(wd)
     drv = vlib.build_harness()
     for cfg in (["MC_MQ_q.cfg", "MC_MQ_p40.cfg"] if ctx.quick else ["MC_MQ_q.cfg", "MC_MQ_p40.cfg", "MC_MQ_p90.cfg", "MC_MQ_t.cfg"]):
-        ctx.mc("MC_MQ", cfg, timeout=3000)
-    ctx.mc("MC_Dwt53", "MC_Dwt53_q.cfg" if ctx.quick else "MC_Dwt53_t.cfg", timeout=3000)
+        ctx.mc("MC_MQ", cfg, timeout=3000 if ctx.quick else 14400)
+    ctx.mc("MC_Dwt53", "MC_Dwt53_q.cfg" if ctx.quick else "MC_Dwt53_t.cfg", timeout=3000 if ctx.quick else 14400)
     ctx.mc("MC_T1", "MC_T1_q.cfg" if ctx.quick else "MC_T1_t.cfg", timeout=6000)
     trace = os.path.join(wd, "trace.ndjson")
     args = ["c20", "--out", trace, "--seed", str(ctx.seed)] + (["--n", "200", "--maxdim", "40", "--exh", "1"] if ctx.quick else ["--n", "3000", "--maxdim", "257", "--exh", "2"])
@@ -23,7 +23,7 @@ def run(ctx):
             (fm if '"ev":"mq"' in line[:60] else fo).write(line)
     mshards = vlib.shard_trace(mqf, wd, vlib.NCPU, prefix="mq", max_bytes=6 << 20)
     oshards = vlib.shard_trace(otf, wd, vlib.NCPU, prefix="ot", max_bytes=6 << 20)
-    v1 = vlib.validate(wd, "MqTrace", mshards, timeout=3000)
+    v1 = vlib.validate(wd, "MqTrace", mshards, timeout=3000 if ctx.quick else 14400)
     v2 = vlib.validate(wd, "C20Trace", oshards, timeout=3000, heap="4g")
     val = {"rejects": v1["rejects"] + v2["rejects"], "states": v1["states"] + v2["states"], "transitions": v1["transitions"] + v2["transitions"],
            "lines": v1["lines"] + v2["lines"], "accepted": v1["accepted"] + v2["accepted"], "infos": v1["infos"] + v2["infos"], "classes": set()}
